@@ -98,6 +98,8 @@ def observe(case):
     # second component: the same history under another name, pinned by every parent commit at the highest pin that
     # occurs for the first component (a pin that never moves)
     two = bool(case.get('two')) and not vfile and not saved
+    swap = two and bool(case.get('swap'))
+    mc, oc = ('lib2', 'lib') if swap else ('lib', 'lib2')
     top = max(range(h['n']), key=lambda k: (case['pin'][k], case['pin2'][k]))
     pin_lib2 = '%d.%d.%d' % (cmaj, 9 if zero else 0, 100 + 2 * case['pin'][top] + (1 if case['pin2'][top] else 0))
     app_commits, app_tags = {}, {}
@@ -105,7 +107,11 @@ def observe(case):
         ps = sorted(h['parents'][c - 1], reverse=(c % 2 == 1))
         files = {'DEPENDS': json.dumps({'lib': '%d.%d.%d' % (cmaj, minor(case['pin'][c - 1]), 100 + 2 * case['pin'][c - 1] + (1 if case['pin2'][c - 1] else 0))})}
         if two:
-            files = {'DEPENDS': files['DEPENDS'], 'DEPENDS2': json.dumps({'lib2': pin_lib2})}
+            # swap: the component under observation is the one named lib2 (pinned in the second file), the component
+            # whose pin never moves is lib - whichever file is read last, one of the two variants observes the other one
+            moving = json.loads(files['DEPENDS'])['lib']
+            files = {'DEPENDS': json.dumps({'lib': pin_lib2 if swap else moving}),
+                     'DEPENDS2': json.dumps({'lib2': moving if swap else pin_lib2})}
         app_commits[c] = (ps, ('BUG-7 app %d' % c) if h['match'][c - 1] else 'app other %d' % c, files)
         if h['tagged'][c - 1]:
             app_tags[_tag(c)] = c
@@ -115,18 +121,18 @@ def observe(case):
                 app_tags['build_%d_release_1_1_success' % c] = c
     app = ghmock.Repo('app', app_commits, app_tags, dict(h['head']), time_step=600, times=app_times)
     order = case.get('supply', 0)
-    repos = [('lib', e['LibS' if saved else ('LibV' if vfile else 'Lib')]('lib', lib, 'origin')),
+    repos = [(mc, e['LibS' if saved else ('LibV' if vfile else 'Lib')](mc, lib, 'origin')),
              ('app', e['App2' if two else 'App']('app', app, 'origin'))]
     if two:
         lib2 = ghmock.Repo('lib2', lib_commits, lib_tags, lib_heads, time_step=600, times=lib_times)
-        repos.insert(1 if order else 0, ('lib2', e['Lib']('lib2', lib2, 'origin')))
+        repos.insert(1 if order else 0, (oc, e['Lib'](oc, lib2, 'origin')))
     if order:
         repos.reverse()
     coll = e['ReposCollection'](dict(repos))
     if coll.sorted_repos[-1] != 'app' or sorted(coll.sorted_repos) != sorted(r[0] for r in repos):
         return 'repositories analysed in the order %s' % coll.sorted_repos
     data = dict(coll.make_reports_data('BUG-7'))
-    libg, appg = data['lib'], data['app']
+    libg, appg = data[mc], data['app']
     # parent builds that are reported, per branch
     reported = {}
     for rb in appg.branches:
@@ -291,6 +297,7 @@ def run(ctx):
         c['supply'] = i % 2
         c['days'] = (i // 64) % 2 if 'VERIF_C07_DAYS' not in os.environ else 1
         c['two'] = (i // 8) % 2           # the parent pins a second component as well
+        c['swap'] = (i // 128) % 2        # ... and the two components change roles
         c['twolines'] = (i // 32) % 2     # tagged parent commits carry a second tag of release line 1.1 with a smaller counter
         c['zero'] = (i // 16) % 2         # the component's release line is 0.9 instead of 1.0 (tag-only components)
         c['vfile'] = (i // 2) % 2         # how the component's builds get their major.minor: tag text / VERSION file
